@@ -3,6 +3,7 @@
 package main
 
 import (
+	"encoding/json"
 	"flag"
 	"fmt"
 	"os"
@@ -16,6 +17,7 @@ import (
 
 	"gogucheck/core"
 	"gogucheck/mutants"
+	"gogucheck/norm"
 	"gogucheck/props"
 )
 
@@ -30,7 +32,34 @@ func main() {
 	selftest := flag.Bool("selftest", false, "run every seeded variant of -property (or of all properties) and print the kill table")
 	replay := flag.String("replay", "", "replay file: re-run the rules and report, per recorded key, whether it still violates")
 	seedDir := flag.String("seedpatch", "", "directory of one kept sub-agent seed (patch.diff, meta.json): apply it through an overlay and report whether the property's rules fire")
+	mkinv := flag.Bool("mkinventory", false, "print the function inventory (name -> signature shape) of -repo as JSON")
+	shownorm := flag.Bool("shownorm", false, "print the steps of the normalisation pass on -repo and the rewritten files")
 	flag.Parse()
+	normDir = filepath.Join(*out, "normalised")
+	if *mkinv {
+		inv, err := norm.Inventory(*repo)
+		if err != nil {
+			fmt.Println("CHECKER-FAILURE", err)
+			os.Exit(2)
+		}
+		b, _ := json.MarshalIndent(inv, "", " ")
+		fmt.Println(string(b))
+		return
+	}
+	if *shownorm {
+		res, err := norm.Normalise(*repo, nil, norm.Confirmed())
+		if err != nil {
+			fmt.Println("CHECKER-FAILURE", err)
+			os.Exit(2)
+		}
+		for _, n := range res.Notes {
+			fmt.Println("note:", n)
+		}
+		for _, f := range res.Changed {
+			fmt.Printf("==== %s\n%s\n", f, res.Overlay[f])
+		}
+		return
+	}
 	if *list {
 		for _, id := range props.IDs() {
 			fmt.Println(id)
@@ -78,6 +107,8 @@ func main() {
 	os.Exit(run(c, *tier, *repo, *out, *known, seed))
 }
 
+var normDir string
+
 // analyse loads the tree (with an optional overlay) and runs one property's rules.
 func analyse(c *props.Check, tier, repo string, overlay map[string][]byte, seed int64) (r *core.Report, err error) {
 	r = core.NewReport(c.ID, tier, seed)
@@ -90,6 +121,36 @@ func analyse(c *props.Check, tier, repo string, overlay map[string][]byte, seed 
 			r.Fatal("panic in engine: %v", x)
 		}
 	}()
+	// bring new unexported helpers and renamed helpers back to the confirmed
+	// function inventory (identity on a tree that adds no function)
+	nres, nerr := norm.Normalise(repo, overlay, norm.Confirmed())
+	if nerr != nil {
+		return r, fmt.Errorf("normalisation: %v", nerr)
+	}
+	if len(nres.Notes) > 0 {
+		r.Extra["normalisation"] = nres.Notes
+		for _, n := range nres.Notes {
+			fmt.Println("note: normalisation:", n)
+		}
+	}
+	if len(nres.Changed) > 0 {
+		overlay = nres.Overlay
+		var rels []string
+		for _, f := range nres.Changed {
+			rel, _ := filepath.Rel(repo, f)
+			rels = append(rels, rel)
+			if normDir != "" && tier != "variant" {
+				dst := filepath.Join(normDir, rel)
+				os.MkdirAll(filepath.Dir(dst), 0o755)
+				tmp := fmt.Sprintf("%s.%d", dst, os.Getpid())
+				if os.WriteFile(tmp, nres.Overlay[f], 0o644) == nil {
+					os.Rename(tmp, dst)
+				}
+			}
+		}
+		r.Extra["normalised_files"] = rels
+		fmt.Printf("note: positions in %v refer to the normalised source written under %s\n", rels, normDir)
+	}
 	p, err := core.Load(repo, overlay, core.MinPackages)
 	if err != nil {
 		return r, err
